@@ -4,15 +4,16 @@
   `AlignedS/AlignedV`, `goodOp`, `OtherOK`, `CountShapeOK`, `WFS` are defined in Deepali/Proofs/Dispatch*.lean.
 
   History: the defects behind the former C19_split_sections_refuted, C19_split_with_sizes_refuted,
-  C19_bool_mask_refuted, C19_ellipsis_refuted, C19_narrow_method_refuted, C19_flow_*_refuted and
-  C19_demote_flow_refuted were repaired in /repo (commits 31c6369, a040c96, e158d15, e37fd36); the model follows the
-  repaired code, these operation classes are now part of `goodOp` / `C19_demote`, and their old witnesses are kept as
-  positive instances (`C19_repaired_witnesses_aligned`, `C19_flow_batch_size_demoted`).
+  C19_bool_mask_refuted, C19_ellipsis_refuted, C19_narrow_method_refuted, C19_flow_*_refuted, C19_demote_flow_refuted,
+  C19_narrow_negdim_refuted, C19_copy_flow_refuted, C19_from_images_axes_refuted and C19_append_axes_refuted were
+  repaired in /repo (commits 31c6369, a040c96, e158d15, e37fd36, 018b42a, 5463a8b, d25ad21); the model follows the
+  repaired code, these operation classes are now part of `goodOp` / `C19_demote` / `C19_copy_pickle`, and their old
+  witnesses are kept as positive instances (`C19_repaired_witnesses_aligned`, `C19_flow_batch_size_demoted`).
 
   OBLIGATIONS: C19_aligned_partial C19_aligned_refuted C19_demote C19_demote_image C19_demote_plain
-    C19_flow_batch_size_demoted C19_repaired_witnesses_aligned C19_copy_pickle C19_copy_flow_refuted
-    C19_flip_refuted C19_roll_refuted C19_index_select_refuted C19_permute_refuted C19_narrow_negdim_refuted
-    C19_from_images_axes_refuted C19_append_axes_refuted
+    C19_flow_batch_size_demoted C19_repaired_witnesses_aligned C19_copy_pickle
+    C19_from_images_axes C19_append_axes_mismatch_raises
+    C19_flip_refuted C19_roll_refuted C19_index_select_refuted C19_permute_refuted
 -/
 import Deepali.Proofs.DispatchCopy
 
@@ -33,12 +34,14 @@ def C19_aligned_Statement : Prop :=
     `b[int]`, `b[slice]`, `b[list | index tensor]`, `b[bool mask]`, `b[...]`, and index tuples without ellipsis;
     iteration and picking a tuple member; `cat` along dim 0 (dim omitted, positional 0, keyword 0) with itself or another
     aligned batch; `split(int)`, `split([sections])`, `split_with_sizes`, `tensor_split(indices)` along dim 0; `chunk`,
-    `unbind`; method `narrow` (non-negative dim literal and start); and, along non-batch dims given as positive
+    `unbind`; method `narrow` (any dim incl. negative, non-negative start); `append` of another aligned batch; and,
+    along non-batch dims given as positive
     literals, `flip`, `roll`, `narrow` (function), `select`, `index_select`, reductions; `interpolate`; pooling —
     keep every result aligned, for Image, ImageBatch, FlowField and FlowFields alike, starting from any aligned value
     (an exception yields nothing, I-1; plain results claim nothing).
-    Missing (see the `_refuted` theorems): flip/roll/index_select along dim 0, dim-0 transposition, method `narrow`
-    with a negative dim, `copy` of flow fields, `from_images` / `append` axes. Covered by `C19_demote` (count and
+    Missing (see the `_refuted` theorems): flip/roll/index_select along dim 0, dim-0 transposition. `from_images`:
+    axes clause proved separately (`C19_from_images_axes`), alignment by witness + correspondence (an image whose channels
+    all hold no data has no provenance to compare). Covered by `C19_demote` (count and
     shapes) + correspondence + oracle only: negative dim literals, stack, tensor_split(int), expand/repeat/reshape/
     squeeze/unsqueeze, dim-0 reductions, permute/transpose of other dims, padding, index tuples with an ellipsis, collate. -/
 theorem C19_aligned_partial (a0 : Nat) (other : Option SVal) (prog : List TOp) (v : Val)
@@ -143,20 +146,29 @@ theorem C19_flow_batch_size_demoted :
 
 /-! ### copy / deepcopy / pickle -/
 
-/-- deep-copying and pickling return the same type, data, grids and axes for every well-formed value; `copy.copy`
-    does for Image and ImageBatch. -/
+/-- copying, deep-copying and pickling return the same type, data, grids and axes for every well-formed value
+    (Image, ImageBatch, FlowField, FlowFields; `copy.copy` of flow fields since commit 5463a8b). -/
 theorem C19_copy_pickle (other : Option SVal) (s : SVal) (h : WFS s) :
     step other .pickle (.one s) = .one s ∧ step other .deepcopy (.one s) = .one s ∧
-      (s.isFlow = false → step other .copy (.one s) = .one s) :=
+      step other .copy (.one s) = .one s :=
   copy_pickle_preserve other s h
 
-example : WFS (mkInput true 3 2 [4, 5] 0 1) ∧ WFS (mkInputImage false 2 [4, 5] 1 0) := by decide
+example : WFS (mkInput true 3 2 [4, 5] 0 1) ∧ WFS (mkInputImage false 2 [4, 5] 1 0) ∧
+    WFS (mkInputImage true 2 [4, 5] 1 3) := by decide
 
-/-- `copy.copy` of a FlowFields / FlowField raises (`_make_instance()` is called without the required `data`) -/
-theorem C19_copy_flow_refuted : ¬ (∀ s : SVal, WFS s → step none .copy (.one s) = .one s) := by
-  intro h
-  have := h (mkInput true 2 2 [2, 2] 0 1) (by decide)
-  simp [step, stepOne, mkInput, copyVal] at this
+/-! ### vector representation through from_images / append (repaired by d25ad21) -/
+
+/-- a FlowFields returned by `from_images` carries the axes of every flow field it was built from (items with
+    different axes make the call raise) -/
+theorem C19_from_images_axes (l : List SVal) (t : Raw) (gs : List GridTag) (a : Nat)
+    (h : stepMany .fromImages l = .one (.batch true t gs a)) : ∀ s ∈ l, ∀ a', axes? s = some a' → a' = a :=
+  fromImages_axes l t gs a h
+
+/-- `FlowFields.append` of flow fields with different axes raises instead of re-labelling the vectors -/
+theorem C19_append_axes_mismatch_raises (a ao : Nat) (t t' : Raw) (gs gs' : List GridTag) (h : ao ≠ a) :
+    step (some (.batch true t' gs' ao)) .append (.one (.batch true t gs a)) = .err .dispatch := by
+  simp only [step, stepOne]
+  exact append_mismatch_raises a ao t t' gs gs' h
 
 /-! ### refuted operation classes (each with the smallest witness; replayed on the implementation by the
     harness stream `witnesses`) -/
@@ -185,42 +197,22 @@ theorem C19_permute_refuted : ¬ (∀ v : Val, AlignedV 0 v → AlignedV 0 (step
   have := h (.one (mkInput false 2 2 [2, 2] 0 0)) (by decide)
   revert this; decide
 
-/-- method `narrow` with a NEGATIVE dim: `dim == 0` / `dim > 1` are tested on the argument as given, so
-    `batch.narrow(-4, 1, 1)` narrows the data along the batch dimension but passes all grids on (2 grids, 1 entry) -/
-theorem C19_narrow_negdim_refuted : ¬ (∀ v : Val, AlignedV 0 v → AlignedV 0 (step none (.narrowM (-4) 1 1) v)) := by
-  intro h
-  have := h (.one (mkInput false 2 1 [2, 2] 0 0)) (by decide)
-  revert this; decide
-
 /-- the former witnesses of the defects repaired in /repo (31c6369 narrow / `batch[...]`, a040c96 split sections,
-    e37fd36 boolean mask) are aligned now — concrete instances of `C19_aligned_partial` -/
+    e37fd36 boolean mask, 018b42a negative dim, d25ad21 from_images axes, 5463a8b copy) are aligned now — concrete instances of `C19_aligned_partial` -/
 theorem C19_repaired_witnesses_aligned :
     AlignedV 0 (step none (.splitL [1, 2] .dflt) (.one (mkInput false 3 1 [2, 2] 0 0))) ∧
       AlignedV 0 (step none (.splitWS [1, 2] .dflt) (.one (mkInput false 3 1 [2, 2] 0 0))) ∧
       AlignedV 0 (step none (.getitem (.single (.mask [true, false, true]))) (.one (mkInput false 3 1 [2, 2] 0 0))) ∧
       AlignedV 0 (step none (.getitem (.single .ell)) (.one (mkInput false 2 1 [2, 2] 0 0))) ∧
       AlignedV 0 (step none (.narrowM 0 1 1) (.one (mkInput false 2 1 [2, 2] 0 0))) ∧
+      AlignedV 0 (step none (.narrowM (-4) 1 1) (.one (mkInput false 2 1 [2, 2] 0 0))) ∧
+      AlignedV 1 (runProg none [.iter, .fromImages] (.one (mkInput true 2 2 [2, 2] 0 1))) ∧
+      AlignedV 1 (step none .copy (.one (mkInput true 2 2 [2, 2] 0 1))) ∧
       step none (.narrowM 0 1 1) (.one (mkInput false 2 1 [2, 2] 0 0)) =
         .one (.batch false ⟨[1, 1, 2, 2], [.item 1]⟩ [⟨1, [2, 2], []⟩] 0) ∧
       step none (.splitL [1, 2] .dflt) (.one (mkInput false 3 1 [2, 2] 0 0)) =
         .many [.batch false ⟨[1, 1, 2, 2], [.item 0]⟩ [⟨0, [2, 2], []⟩] 0,
                .batch false ⟨[2, 1, 2, 2], [.item 1, .item 2]⟩ [⟨1, [2, 2], []⟩, ⟨2, [2, 2], []⟩] 0] := by
   decide
-
-/-- `FlowFields.from_images(list(batch))` drops the axes (default axes instead of the items' WORLD axes) -/
-theorem C19_from_images_axes_refuted :
-    ¬ (∀ v : Val, AlignedV 1 v → AlignedV 1 (runProg none [.iter, .fromImages] v)) := by
-  intro h
-  have := h (.one (mkInput true 2 2 [2, 2] 0 1)) (by decide)
-  revert this; decide
-
-/-- `a.append(b)` with different axes silently re-labels b's vectors with a's axes (here the program's flow inputs
-    do not share one axes value, so no `a0` makes both aligned: stated for the result axes directly) -/
-theorem C19_append_axes_refuted :
-    ∃ (a b : SVal), (∃ ta ga, a = .batch true ta ga 1) ∧ (∃ tb gb, b = .batch true tb gb 2) ∧
-      AlignedS 1 a ∧ AlignedS 2 b ∧
-      ∃ t gs, step (some b) .append (.one a) = .one (.batch true t gs 1) ∧ gs.any (fun g => g.src == 10) := by
-  refine ⟨mkInput true 1 2 [2, 2] 0 1, mkInput true 1 2 [2, 2] 10 2, ⟨_, _, rfl⟩, ⟨_, _, rfl⟩, by decide, by decide,
-    ⟨[2, 2, 2, 2], [.item 0, .item 10]⟩, [⟨0, [2, 2], []⟩, ⟨10, [2, 2], []⟩], by decide, by decide⟩
 
 end Deepali
